@@ -961,6 +961,28 @@ pub fn after_commit_da(sim: &mut Sim, result_events: &[ExecEvent]) {
 }
 
 /// C45: dry runs leave the databases unchanged and are repeatable on an unchanged chain.
+/// The same inputs/outputs/limits with the script replaced by `asm::script_log_block_time`,
+/// re-signed by the wallets that own the inputs.
+fn time_reading_variant(spec: &chainkit::spec::ChainSpec, g: &GenTx) -> Option<Transaction> {
+    use fuel_core_types::fuel_tx::{
+        Signable,
+        field::{
+            Script as _,
+            ScriptData as _,
+        },
+    };
+    let Transaction::Script(mut s) = g.tx.clone() else {
+        return None;
+    };
+    *s.script_mut() = chainkit::asm::script_log_block_time();
+    *s.script_data_mut() = Vec::new();
+    let chain_id = spec.params.chain_id();
+    for w in &spec.wallets {
+        s.sign_inputs(&w.secret, &chain_id);
+    }
+    Some(s.into())
+}
+
 pub async fn c45_dry_runs(ctx: &mut Ctx, sim: &mut Sim, p: &Node, producer: &Prod) {
     let n = if ctx.prop == "C45" { 1 + ctx.tape.below(3) } else { ctx.tape.below(2) };
     for _ in 0..n {
@@ -991,20 +1013,44 @@ pub async fn c45_dry_runs(ctx: &mut Ctx, sim: &mut Sim, p: &Node, producer: &Pro
         };
         let record = ctx.tape.chance(1, 3);
         let gas_price = if ctx.tape.coin() { None } else { Some(ctx.tape.choose(3)) };
+        // Time-dependent request: one script is replaced by a script that logs the time of the
+        // block it runs in, and the node derives the simulated time itself (`time: None`, as
+        // the GraphQL dryRun/assembleTx paths do). The node's wall clock (simulated) is put
+        // before, at or after the latest block's time and moves between the two repeats: the
+        // chain is unchanged, so the answer must not.
+        let time_arg = if ctx.tape.chance(1, 2) {
+            if ctx.tape.coin() {
+                if let Some(t) = time_reading_variant(&sim.spec, &txs[0]) {
+                    txs[0].desc = format!("log-block-time variant of [{}]", txs[0].desc);
+                    txs[0].tx = t;
+                    ctx.probe("dry_run_time_reading_script");
+                }
+            }
+            ctx.probe("dry_run_time_derived_by_node");
+            None
+        } else {
+            Some(Tai64::from_unix(sim.time as i64))
+        };
+        const SKEW_S: [i64; 7] = [-3600, -5, -1, 0, 1, 5, 3600];
+        let skew = SKEW_S[ctx.tape.below(SKEW_S.len())];
+        let wall_step_s = [0i64, 1, 2, 60][ctx.tape.below(4)];
+        let wall0 = (sim.time as i64 + skew).max(1);
+        simkit::clock::set_unix_ms(wall0 * 1000);
+        if skew < 0 {
+            ctx.probe("dry_run_wall_clock_behind_latest_block");
+        }
         ctx.scope("C45");
         ctx.op(format!(
-            "dry_run {:?} at={at:?} utxo_validation={utxo_validation:?} record_reads={record}",
-            txs.iter().map(|t| t.desc.clone()).collect::<Vec<_>>()
+            "dry_run {:?} at={at:?} utxo_validation={utxo_validation:?} record_reads={record} time={} wall_clock=block{skew:+}s repeat_after={wall_step_s}s",
+            txs.iter().map(|t| t.desc.clone()).collect::<Vec<_>>(),
+            if time_arg.is_some() { "explicit" } else { "derived" },
         ));
         let before_on = hash_dump(&dump_on_chain(p.db.on_chain()));
         let raw: Vec<Transaction> = txs.iter().map(|t| t.tx.clone()).collect();
-        let r1 = producer
-            .dry_run(raw.clone(), at, Some(Tai64::from_unix(sim.time as i64)), utxo_validation, gas_price, record)
-            .await;
+        let r1 = producer.dry_run(raw.clone(), at, time_arg, utxo_validation, gas_price, record).await;
         let mid_on = hash_dump(&dump_on_chain(p.db.on_chain()));
-        let r2 = producer
-            .dry_run(raw, at, Some(Tai64::from_unix(sim.time as i64)), utxo_validation, gas_price, record)
-            .await;
+        simkit::clock::set_unix_ms((wall0 + wall_step_s) * 1000);
+        let r2 = producer.dry_run(raw, at, time_arg, utxo_validation, gas_price, record).await;
         let after_on = hash_dump(&dump_on_chain(p.db.on_chain()));
         ctx.check("C45", "dry-run-changed-on-chain-state", before_on == mid_on && mid_on == after_on, || {
             "the on-chain database changed during a dry run".to_string()
